@@ -177,7 +177,20 @@ LockMixAsts ==
                Bin("and_v", Un("v", Bin("or_i", LkB(1, a), LkB(2, c))), LkB(3, d)),
                Bin("and_v", Un("v", LkB(1, a)), Bin("or_i", LkB(2, c), LkB(3, d))),
                Thresh(2, <<LkU(1, a), Un("a", LkU(2, c)), Un("a", LkU(3, d))>>)} : a \in Locks4, c \in Locks4, d \in Locks4}
-LockMix(on) == IF on = 0 THEN {} ELSE {x.a : x \in OkOnly({T(m, TypeOf(m, Ctx)) : m \in LockMixAsts})}
+\* a conjunction that mixes (or not) two locks, placed UNDER every kind of disjunction
+LkConj(a, c) == Bin("and_v", Un("v", LkB(1, a)), LkB(2, c))
+LkConjU(a, c) == Bin("or_i", Leaf("0", 0), Bin("and_v", Un("v", Bin("and_v", Un("v", a), c)), Un("c", Leaf("pk_k", 1))))
+LockUnderOr ==
+  UNION {{Bin("or_i", LkConj(a, c), Un("c", Leaf("pk_k", 3))),
+          Bin("or_i", Un("c", Leaf("pk_k", 3)), LkConj(a, c)),
+          Bin("or_d", Un("c", Leaf("pk_k", 3)), LkConj(a, c)),
+          Bin("or_c", Un("c", Leaf("pk_k", 3)), Un("v", LkConj(a, c))),
+          Bin("or_b", LkConjU(a, c), Un("a", Un("c", Leaf("pk_k", 2)))),
+          Tern("andor", Un("c", Leaf("pk_k", 3)), LkConj(a, c), Un("c", Leaf("pk_k", 4))),
+          Tern("andor", Un("c", Leaf("pk_k", 3)), Un("c", Leaf("pk_k", 4)), LkConj(a, c)),
+          Thresh(1, <<LkConjU(a, c), Un("a", Un("c", Leaf("pk_k", 2)))>>),
+          Bin("and_v", Un("v", Un("c", Leaf("pk_k", 4))), Bin("or_i", LkConj(a, c), Un("c", Leaf("pk_k", 3))))} : a \in Locks4, c \in Locks4}
+LockMix(on) == IF on = 0 THEN {} ELSE {x.a : x \in OkOnly({T(m, TypeOf(m, Ctx)) : m \in LockMixAsts \cup LockUnderOr})}
 
 (***************************************************************************)
 (* Nested choices: a choice inside a choice over a handful of atoms (keys, *)
@@ -218,5 +231,46 @@ TMW(dummy) == {Un(w, Un("c", Leaf("pk_k", k))) : w \in {"a", "s"}, k \in {2, 3, 
 ThreshMix(on) ==
   IF on = 0 THEN {}
   ELSE {x \in NCOk({Thresh(k, <<b, w1, w2>>) : k \in 1..3, b \in TMB(0), w1 \in TMW(0), w2 \in TMW(0)}) : NoDupKeys(x) /\ KeyCanonical(x)}
+
+(***************************************************************************)
+(* Hash kinds: the universe enumerates one or two hash functions; every    *)
+(* enumerated fragment with a hash leaf is also produced with another of   *)
+(* the four kinds (chosen by position), so that all of sha256 / hash256 /  *)
+(* ripemd160 / hash160 occur in every nesting.                             *)
+(***************************************************************************)
+RECURSIVE SwapHash(_, _)
+SwapHash(m, kind) ==
+  IF m.f \in HashFrags THEN [m EXCEPT !.f = kind]
+  ELSE IF Len(m.xs) = 0 THEN m
+  ELSE [m EXCEPT !.xs = [q \in 1..Len(m.xs) |-> SwapHash(m.xs[q], kind)]]
+RECURSIVE HasHash(_)
+HasHash(m) == m.f \in HashFrags \/ \E q \in 1..Len(m.xs) : HasHash(m.xs[q])
+OtherKinds == <<"ripemd160", "hash256", "hash160", "sha256">>
+\* S: a set of ASTs; every member with a hash leaf is re-issued with the kind picked by its index
+HashSwapped(S) ==
+  CHOOSE R \in {{SwapHash(Q[q], OtherKinds[(q % 4) + 1]) : q \in {r \in 1..Len(Q) : HasHash(Q[r])}} : Q \in {SetToSeq(S)}} : TRUE
+
+(***************************************************************************)
+(* Numbers at the byte-length boundaries of script numbers, wide           *)
+(* multisigs (more than 16 keys: the key count is no longer a one-byte     *)
+(* opcode), and the multisig fragments of the OTHER contexts (to be        *)
+(* refused).                                                               *)
+(***************************************************************************)
+AfterBounds == {1, 16, 17, 127, 128, 255, 256, 32767, 32768, 65535, 65536, 8388607, 8388608, 16777215, 16777216,
+                499999999, 500000000, 500000001, 2147483000}
+OlderBounds == {1, 16, 17, 127, 128, 255, 256, 32767, 32768, 65535, 4194305, 4194431, 4194432, 4259839}
+NumBoundary(on) ==
+  IF on = 0 THEN {}
+  ELSE {Leaf("after", n) : n \in AfterBounds} \cup {Leaf("older", n) : n \in OlderBounds}
+       \cup {Bin("and_v", Un("v", Un("c", Leaf("pk_k", 1))), Leaf("after", n)) : n \in AfterBounds}
+       \cup {Bin("and_v", Un("v", Un("c", Leaf("pk_k", 1))), Leaf("older", n)) : n \in OlderBounds}
+Keys1To(n) == [q \in 1..n |-> q]
+WideMulti(on) ==
+  IF on = 0 THEN {}
+  \* (not for CHECKSIGADD multisigs: their satisfaction table has 2^n rows, minutes of TLC time for n = 17)
+  ELSE IF Ctx = "tap" THEN {}
+  ELSE {Ast(f, k, Keys1To(n), <<>>) : f \in {MultiName, "sorted" \o MultiName}, n \in {16, 17, 20}, k \in {1, 2, 16, 17, 20}}
+CrossLeaves ==
+  {Ast(f, mk[1], mk[2], <<>>) : f \in {"multi", "multi_a", "sortedmulti", "sortedmulti_a"}, mk \in MultiKs}
 
 =============================================================================
